@@ -42,6 +42,7 @@ type upReq struct {
 	msgSize    int
 	omitDigest bool // ac_*: leave the digest field nil
 	hasSkip    bool // splice: do not upload chunk skipChunk beforehand
+	noChunkUp  bool // splice: the chunks are resident already, upload none
 	skipChunk  int
 }
 
@@ -250,7 +251,7 @@ func (f *fx) upload(u upReq) upRes {
 			reqs = append(reqs, &pb.BatchUpdateBlobsRequest_Request{Digest: d, Data: c})
 		}
 		for i, r := range reqs {
-			if u.hasSkip && i == u.skipChunk {
+			if u.noChunkUp || (u.hasSkip && i == u.skipChunk) {
 				continue
 			}
 			resp, err := f.cas.BatchUpdateBlobs(ctx, &pb.BatchUpdateBlobsRequest{Requests: []*pb.BatchUpdateBlobsRequest_Request{r}})
